@@ -14,7 +14,7 @@ RULE = ('per element-content type: every word of the reference language up to le
         '4 for alphabets <= 8 in thorough), one accepted word per DFA edge (transition cover), and seeded random '
         'accepted walks (<= 40 symbols) that re-enter loops, and long runs (every distinct shortest cycle of the '
         'reference automaton repeated to about 70 / 160 symbols, thorough 400 as well); a case is one word supplied left to right to a fresh '
-        'checked element; non-trivial = non-empty word; distinct = distinct (type, word)')
+        'checked element, serialised with intelligent_choice off and on (same text required); non-trivial = non-empty word; distinct = distinct (type, word)')
 ASSUMPTIONS = ['reference DFAs built from /verif/ref/musicxml_4_0.xsd are the schema (self-tested, cross-checked by C03)',
                'children are minimal unchecked instances so only the parent level is judged',
                'parents get their schema-required attributes from the reference table']
@@ -57,6 +57,13 @@ def run_word(cls, word):
         return ('output-unparsable', {'err': str(err)})
     if out != list(word):
         return ('output-order', {'got': out})
+    # the other form of the final check: a valid, complete element needs no re-arrangement, so to_string(intelligent_choice=True)
+    # must return the same text
+    r = lib.call(e.to_string, True)
+    if r[0] == 'exc':
+        return ('final-check-intelligent-choice', {'exc': type(r[1]).__name__, 'msg': str(r[1])[:120]})
+    if r[1] != v[1]:
+        return ('output-order-intelligent-choice', {'got': [c.tag for c in ET.fromstring(r[1])]})
     return None
 
 
